@@ -1169,3 +1169,240 @@ func RunProtocol(conf core.Config) *core.Result {
 	}
 	return res
 }
+
+// ---------------------------------------------------------------------
+// GOPROTO.lockpair and GOPROTO.once
+
+// RunLocks checks every function of the scope: (lockpair) each X.Lock() /
+// X.RLock() statement is followed, in the same statement list, by the
+// matching X.Unlock() / X.RUnlock() statement or a deferred one — a lock
+// taken inside an `if` and released inside another leaves the region in
+// between unprotected on some configurations; (once) a field assigned
+// inside a sync.Once.Do closure is never read in the same function outside
+// that closure, and every other method of the type that reads it first
+// calls the initialising method.
+func RunLocks(conf core.Config, scope core.Scope) *core.Result {
+	res := core.NewResult("GOPROTO.locks")
+	res.Rules = append(res.Rules,
+		"GOPROTO.lockpair: every Lock()/RLock() statement is paired with its Unlock() in the same statement list (or a deferred Unlock)",
+		"GOPROTO.once: a field initialised inside sync.Once.Do is read only after the Do call: never around it, and in other methods only after the initialising method was called")
+	res.Configs = append(res.Configs, conf.String())
+	pkgs, err := core.Load(conf, scope.Patterns...)
+	if err != nil {
+		res.Brokenf("%v", err)
+		return res
+	}
+	for _, pkg := range pkgs {
+		info := pkg.TypesInfo
+		type onceInit struct {
+			field  string
+			method *ast.FuncDecl
+			recvT  string
+		}
+		var inits []onceInit
+		var decls []*ast.FuncDecl
+		for _, f := range pkg.Syntax {
+			if !scope.InFile(f.Pos()) {
+				continue
+			}
+			for _, d := range f.Decls {
+				if fd, ok := d.(*ast.FuncDecl); ok && fd.Body != nil {
+					decls = append(decls, fd)
+				}
+			}
+		}
+		for _, fd := range decls {
+			name := core.FuncName(pkg, fd)
+			par := cfgx.Parents(fd.Body)
+			ast.Inspect(fd.Body, func(n ast.Node) bool {
+				es, ok := n.(*ast.ExprStmt)
+				if !ok {
+					return true
+				}
+				for _, pair := range [][2]string{{"Lock", "Unlock"}, {"RLock", "RUnlock"}} {
+					x, call, ok := methodCallOn(es.X, pair[0])
+					if !ok {
+						continue
+					}
+					if sel, ok := call.Fun.(*ast.SelectorExpr); ok {
+						if tv, ok := info.Types[sel.X]; !ok || !(isNamedType(tv.Type, "sync", "Mutex") || isNamedType(tv.Type, "sync", "RWMutex")) {
+							continue
+						}
+					}
+					res.Obligations++
+					res.Count("lock_statements", 1)
+					var list []ast.Stmt
+					switch b := par[es].(type) {
+					case *ast.BlockStmt:
+						list = b.List
+					case *ast.CaseClause:
+						list = b.Body
+					case *ast.CommClause:
+						list = b.Body
+					}
+					idx := -1
+					for i, s := range list {
+						if s == ast.Stmt(es) {
+							idx = i
+						}
+					}
+					paired := false
+					// `defer mu.Unlock()` immediately before the Lock is the
+					// unit package's idiom
+					for i := 0; i < idx; i++ {
+						if ds, ok := list[i].(*ast.DeferStmt); ok {
+							if y, _, ok := methodCallOn(ds.Call, pair[1]); ok && y == x {
+								paired = true
+							}
+						}
+					}
+					for i := idx + 1; idx >= 0 && i < len(list); i++ {
+						switch s := list[i].(type) {
+						case *ast.ExprStmt:
+							if y, _, ok := methodCallOn(s.X, pair[1]); ok && y == x {
+								paired = true
+							}
+						case *ast.DeferStmt:
+							if y, _, ok := methodCallOn(s.Call, pair[1]); ok && y == x {
+								paired = true
+							}
+						}
+					}
+					if !paired {
+						res.Add(core.Finding{Rule: "GOPROTO.lockpair", Key: fmt.Sprintf("GOPROTO.lockpair|%s|%s", name, x), Pos: core.Pos(es.Pos()), Func: name,
+							Msg: fmt.Sprintf("%s.%s() has no matching %s() in the same statement list: the lock and the region it protects are not executed as one unit", x, pair[0], pair[1])})
+					}
+				}
+				return true
+			})
+			// once.Do
+			ast.Inspect(fd.Body, func(n ast.Node) bool {
+				call, ok := n.(*ast.CallExpr)
+				if !ok || len(call.Args) != 1 {
+					return true
+				}
+				sel, ok := call.Fun.(*ast.SelectorExpr)
+				if !ok || sel.Sel.Name != "Do" {
+					return true
+				}
+				if tv, ok := info.Types[sel.X]; !ok || !isNamedType(tv.Type, "sync", "Once") {
+					return true
+				}
+				lit, ok := call.Args[0].(*ast.FuncLit)
+				if !ok {
+					return true
+				}
+				res.Count("once_do_sites", 1)
+				fields := map[string]bool{}
+				ast.Inspect(lit.Body, func(m ast.Node) bool {
+					if as, ok := m.(*ast.AssignStmt); ok {
+						for _, l := range as.Lhs {
+							if s2, ok := l.(*ast.SelectorExpr); ok {
+								fields[types.ExprString(s2)] = true
+							}
+						}
+					}
+					return true
+				})
+				for fld := range fields {
+					res.Obligations++
+					ast.Inspect(fd.Body, func(m ast.Node) bool {
+						if m == ast.Node(lit) {
+							return false
+						}
+						if s2, ok := m.(*ast.SelectorExpr); ok && types.ExprString(s2) == fld {
+							res.Add(core.Finding{Rule: "GOPROTO.once", Key: fmt.Sprintf("GOPROTO.once|%s|%s", name, fld), Pos: core.Pos(s2.Pos()), Func: name,
+								Msg: fmt.Sprintf("%s is initialised inside %s.Do but is read outside the closure in the same function: a second goroutine can observe it partially initialised (double-checked locking)", fld, types.ExprString(sel.X))})
+							return false
+						}
+						return true
+					})
+					if fd.Recv != nil {
+						parts := strings.SplitN(fld, ".", 2)
+						if len(parts) == 2 {
+							inits = append(inits, onceInit{field: parts[1], method: fd, recvT: recvTypeOf(fd)})
+						}
+					}
+				}
+				return true
+			})
+		}
+		// other methods reading a once-initialised field must call the initialiser first
+		for _, in := range inits {
+			for _, fd := range decls {
+				if fd == in.method || fd.Recv == nil || recvTypeOf(fd) != in.recvT || len(fd.Recv.List[0].Names) != 1 {
+					continue
+				}
+				recv := fd.Recv.List[0].Names[0].Name
+				var reads []ast.Node
+				ast.Inspect(fd.Body, func(m ast.Node) bool {
+					if s2, ok := m.(*ast.SelectorExpr); ok && s2.Sel.Name == in.field {
+						if id, ok := s2.X.(*ast.Ident); ok && id.Name == recv {
+							reads = append(reads, s2)
+						}
+					}
+					return true
+				})
+				if len(reads) == 0 {
+					continue
+				}
+				g := cfgx.New(fd.Body, info)
+				inState := g.MustPass(func(b *cfg.Block) bool {
+					for _, n := range b.Nodes {
+						found := false
+						ast.Inspect(n, func(x ast.Node) bool {
+							if _, c, ok := methodCallOn(x, in.method.Name.Name); ok && c != nil {
+								found = true
+							}
+							return !found
+						})
+						if found {
+							return true
+						}
+					}
+					return false
+				})
+				for _, r := range reads {
+					res.Obligations++
+					res.Count("once_field_reads", 1)
+					loc, ok := g.Where[r]
+					if !ok {
+						continue
+					}
+					okRead := inState[loc.Block]
+					if !okRead {
+						// same block, earlier node
+						b := g.Blocks[loc.Block]
+						for i := 0; i < loc.Index; i++ {
+							ast.Inspect(b.Nodes[i], func(x ast.Node) bool {
+								if _, c, ok := methodCallOn(x, in.method.Name.Name); ok && c != nil {
+									okRead = true
+								}
+								return true
+							})
+						}
+					}
+					if !okRead {
+						res.Add(core.Finding{Rule: "GOPROTO.once", Key: fmt.Sprintf("GOPROTO.once|%s|%s", core.FuncName(pkg, fd), in.field), Pos: core.Pos(r.Pos()), Func: core.FuncName(pkg, fd),
+							Msg: fmt.Sprintf("field %s is initialised lazily by %s (sync.Once) but is read here on a path that has not called %s", in.field, in.method.Name.Name, in.method.Name.Name)})
+					}
+				}
+			}
+		}
+	}
+	return res
+}
+
+func recvTypeOf(fd *ast.FuncDecl) string {
+	if fd.Recv == nil || len(fd.Recv.List) == 0 {
+		return ""
+	}
+	t := fd.Recv.List[0].Type
+	if s, ok := t.(*ast.StarExpr); ok {
+		t = s.X
+	}
+	if id, ok := t.(*ast.Ident); ok {
+		return id.Name
+	}
+	return ""
+}
